@@ -4,7 +4,7 @@
    encoding/json (UseNumber keeps the literal, Marshal writes a json.Number verbatim) is
    validated by the harness on every run, not proved. *)
 Require Import Verif.Common.Base Verif.Common.Json Verif.Common.Ctx.
-Require Import Verif.Model.C13 Verif.Spec.C13 Verif.Proof.C13 Verif.Proof.C13_stream Verif.Proof.C13_order.
+Require Import Verif.Model.C13 Verif.Spec.C13 Verif.Proof.C13 Verif.Proof.C13_stream Verif.Proof.C13_order Verif.Proof.C13_text.
 Close Scope Z_scope.
 Open Scope string_scope.
 Open Scope list_scope.
@@ -203,7 +203,52 @@ Theorem C13_noop_model_meets_oracle : forall r cc st hs body,
 Proof. exact noop_model_meets_oracle. Qed.
 Print Assumptions C13_noop_model_meets_oracle.
 
+(* the same bytes cut into chunks in any two ways arrive as the same bytes (one call) *)
+Theorem C13_noop_bytes_any_chunking : forall cc body1 body2 now0 tmo sched1 sched2,
+  cc <= 1 -> bytes_of body1 = bytes_of body2 ->
+  let fin1 := run (reader_ctx cc now0 tmo) (init_st cc body1 now0) sched1 in
+  let fin2 := run (reader_ctx cc now0 tmo) (init_st cc body2 now0) sched2 in
+  finished fin1 = true -> finished fin2 = true ->
+  (clock fin1 < now0 + tmo)%Z -> (clock fin2 < now0 + tmo)%Z ->
+  bytes_of (got fin1) = bytes_of body1 /\ bytes_of (got fin1) = bytes_of (got fin2).
+Proof. exact noop_bytes_any_chunking. Qed.
+Print Assumptions C13_noop_bytes_any_chunking.
+
+(* ---- encoding/json at the byte level (models validated on every run against the literals the
+   real encoder wrote into gateway replies and the real decoder read from backend replies) ---- *)
+
+(* for EVERY byte string: the string encoder (HTML escaping on) followed by the decoder's unquote
+   gives the string back and consumes exactly the literal *)
+Theorem C13_string_escape_roundtrip : forall s rest,
+  go_unquote ((go_escape s ++ String """" rest)%string) = Some (s, rest).
+Proof. exact escape_roundtrip. Qed.
+Print Assumptions C13_string_escape_roundtrip.
+
+Theorem C13_string_literal_roundtrip : forall s rest,
+  exists body, (go_quote s ++ rest)%string = String """" body /\ go_unquote body = Some (s, rest).
+Proof. exact quote_roundtrip. Qed.
+Print Assumptions C13_string_literal_roundtrip.
+
+(* a number literal followed by anything that is not a number character (comma, bracket, brace,
+   white space, end) is scanned back with exactly its text: no re-formatting step exists *)
+Theorem C13_number_literal_scan : forall l rest,
+  all_chars num_char l = true -> ends_number rest = true -> scan_number ((l ++ rest)%string) = (l, rest).
+Proof. exact scan_number_roundtrip. Qed.
+Print Assumptions C13_number_literal_scan.
+
 (* ---- non-vacuity ---- *)
+Example C13_ex_escape :
+  go_escape (bs [34; 92; 60; 10; 1; 226; 128; 168; 195; 169]%N) =
+  bs [92;34; 92;92; 92;117;48;48;51;99; 92;110; 92;117;48;48;48;49; 92;117;50;48;50;56; 195;169]%N.
+Proof. vm_compute. reflexivity. Qed.
+Example C13_ex_unquote_upper_hex_and_slash :
+  go_unquote "\u00E9\/x""tail" = Some (bs [195; 169; 47; 120]%N, "tail").
+Proof. vm_compute. reflexivity. Qed.
+Example C13_ex_unquote_surrogate_not_modelled : go_unquote "\ud83d\ude00""" = None.
+Proof. vm_compute. reflexivity. Qed.
+Example C13_ex_scan : scan_number "12345678901234567890.000,""x""" = ("12345678901234567890.000", ",""x""").
+Proof. vm_compute. reflexivity. Qed.
+
 Definition ex_doc : json :=
   JObj [("big", JNum "12345678901234567890"); ("dec", JNum "0.1234567890123456789012345678901234567890");
         ("exp", JNum "1e400"); ("negz", JNum "-0.0");
